@@ -29,7 +29,8 @@ for the property and to hide the change in one of its likely blind spots (unmode
 arguments, long histories, operations after refused or degraded ones, permissive and restrictive configurations, second calls); round 9 (`r9`) asked for clean-up commits
 ("remove redundant check", "use the stdlib helper", "drop the defensive copy", "merge duplicate paths") where the removed code was not redundant after all; round 10 (`r10`) asked for
 well-meant additions (caches and fast paths, tolerances and fall-backs, new options and supported values, extra limits, logging) that leave every existing check in place; round 11 (`r11`) asked for
-modernisation / migration commits meant to change nothing (standard-library helpers for hand-written loops, other data types, another API of the same family, generics, reordered steps). One round-11 proposal for C18 was not kept (an Ed25519 JWK whose `x` is not 32 octets long: the unchanged tree pads or truncates it, the change refuses the document; the statement says nothing about
+modernisation / migration commits meant to change nothing (standard-library helpers for hand-written loops, other data types, another API of the same family, generics, reordered steps); round 12 (`r12`) asked for spec-alignment / interop
+commits (somebody re-read an RFC, DID Core or the reference implementation and "fixed" the library to match a misread clause). One round-11 proposal for C18 was not kept (an Ed25519 JWK whose `x` is not 32 octets long: the unchanged tree pads or truncates it, the change refuses the document; the statement says nothing about
 malformed key material, and refusing is the better answer). Two round-9 proposals for C20 were confirmed but not kept, because they
 manifest only when two concurrent calls share an input object (one version list handed to several `verprovider.New` calls, documents sharing
 the backing array of a relationship list) and the statement speaks of concurrent calls on distinct inputs; a trial version of the
@@ -94,6 +95,15 @@ What the misses had in common, and the general lesson applied across checks:
   repeated URI, member names that are merely unusual, scheme-less endpoints, short coordinates with a line break in their
   text, curve names in another letter case against a genuine signature, stray members of other operation types in signed
   data, signers under another algorithm label;
+* *a rule of another layer or of another document applied here* (round 12: spec alignments): URIs normalised, padding tolerated,
+  members dropped or required because another specification or implementation says so. Inputs now deviate from the
+  normalised form on purpose: endpoints with capitals in scheme and host, escaped reserved characters, lower-case hex and
+  default ports; member names that mean something to JavaScript (`__proto__`, `constructor`) or look like array indexes
+  (`007`); numbers beyond 2^53 in patch values and window bounds (exact digits); mantissas of more than 20 digits with an
+  upper-case exponent sign; keys signed in the RFC 8037 spelling (no empty `y`) or with `kid` / `use`; namespaces of three and
+  four segments; network segments in long-form DIDs; payloads that are JSON text but not canonical; points with a zero
+  coordinate; signatures with one octet more; pointers in URI-fragment form; a top-level `controller`; key material under the
+  names other suites use; a window length of zero in the shared applier; and a lock-up detector around every stress run;
 * *a hang ended as "inconclusive"* (C20 recursive read lock): lock-ups of the registries are detected inside the case with the
   goroutine dump as witness, and a C20 case timeout is a violation.
 
